@@ -10,6 +10,48 @@ from . import c10, common, mir
 from .mir import o_str
 
 
+def order_agreement(P):
+    """Shared with C10: retention deletes from the oldest end of the listing - never the file that was just written and acknowledged."""
+    rd = P.body("emit_file::ActiveFileSet::<'a>::read")
+    so = [c for c in rd.calls(normal_only=True) if c.callee.get("name") in ("sort", "sort_unstable", "sort_by", "sort_unstable_by", "sort_by_key", "sort_by_cached_key")]
+    if len(so) != 1:
+        return False, "expected the listing to be sorted once", [], rd.span
+    s = so[0]
+    descending = False
+    if s.callee["name"] in ("sort_by", "sort_unstable_by"):
+        clo = rd.origin(s.args[1])
+        cb = P.body(clo[1]["def"])
+        rev = [c for c in cb.calls(normal_only=True) if c.callee.get("name") == "reverse"]
+        cm = [c for c in cb.calls(normal_only=True) if c.callee.get("name") == "cmp"]
+        swapped = False
+        if cm:
+            a0 = cb.origin(cm[0].args[0])
+            a1 = cb.origin(cm[0].args[1])
+            swapped = (a0[0] == "param" and a0[1] == 3) and (a1[0] == "param" and a1[1] == 2)
+        descending = bool(rev) != swapped
+    elif s.callee["name"] in ("sort_by_key", "sort_by_cached_key"):
+        clo = rd.origin(s.args[1])
+        cb = P.body(clo[1]["def"])
+        descending = any("Reverse" in (x["rv"].get("adt") or "") for bb, j, x in cb.statements(normal_only=True) if x["k"] == "assign" and x["rv"]["k"] == "agg")
+    cur = P.body("emit_file::ActiveFileSet::<'a>::current_file_name")
+    ce = [c for c in cur.calls(normal_only=True) if c.callee.get("name") in ("first", "last")]
+    if len(ce) != 1:
+        return False, "current_file_name must read one end of the listing", [], cur.span
+    ret = P.body("emit_file::ActiveFileSet::<'a>::apply_retention")
+    rm = [c for c in ret.calls(normal_only=True) if c.callee.get("name") in ("pop", "remove") and "Vec" in (c.callee.get("full") or "")]
+    if len(rm) != 1:
+        return False, "retention must remove from one end of the listing", [], ret.span
+    newest_end = "first" if descending else "last"
+    oldest_op = "pop" if descending else "remove"
+    if ce[0].callee["name"] != newest_end:
+        return False, ("the listing is sorted %s but current_file_name() reads `%s()`: the file offered for reuse is the oldest, "
+                       "not the newest" % ("descending" if descending else "ascending", ce[0].callee["name"])), [], ce[0].loc
+    if rm[0].callee["name"] != oldest_op or (oldest_op == "remove" and mir.o_const_value(ret.origin(rm[0].args[1])) != 0):
+        return False, ("the listing is sorted %s (newest %s) but retention removes with `%s`: it deletes the newest files and "
+                       "keeps the oldest" % ("descending" if descending else "ascending", newest_end, rm[0].callee["name"])), [], rm[0].loc
+    return True, "", [s.loc, ce[0].loc, rm[0].loc]
+
+
 def retention_terminates(P):
     """Shared with C08 (the worker always makes progress).  The retention loop runs `while len >= max`; what makes it end is that each
     iteration takes one name *out of* the listing - also when deleting that file fails (a failed delete is counted and skipped).  Decided on
@@ -225,46 +267,7 @@ def run(chk):
         return True, "", [c.loc, pops[0].loc]
     chk.ob("C11.R3:retention-safe", "retention deletes only dir/<name popped from its own listing>, cannot panic on an empty listing, and nobody else deletes", r3)
 
-    def r4():
-        rd = P.body("emit_file::ActiveFileSet::<'a>::read")
-        so = [c for c in rd.calls(normal_only=True) if c.callee.get("name") in ("sort", "sort_unstable", "sort_by", "sort_unstable_by", "sort_by_key", "sort_by_cached_key")]
-        if len(so) != 1:
-            return False, "expected the listing to be sorted once", [], rd.span
-        s = so[0]
-        descending = False
-        if s.callee["name"] in ("sort_by", "sort_unstable_by"):
-            clo = rd.origin(s.args[1])
-            cb = P.body(clo[1]["def"])
-            rev = [c for c in cb.calls(normal_only=True) if c.callee.get("name") == "reverse"]
-            cm = [c for c in cb.calls(normal_only=True) if c.callee.get("name") == "cmp"]
-            swapped = False
-            if cm:
-                a0 = cb.origin(cm[0].args[0])
-                a1 = cb.origin(cm[0].args[1])
-                swapped = (a0[0] == "param" and a0[1] == 3) and (a1[0] == "param" and a1[1] == 2)
-            descending = bool(rev) != swapped
-        elif s.callee["name"] in ("sort_by_key", "sort_by_cached_key"):
-            clo = rd.origin(s.args[1])
-            cb = P.body(clo[1]["def"])
-            descending = any("Reverse" in (x["rv"].get("adt") or "") for bb, j, x in cb.statements(normal_only=True) if x["k"] == "assign" and x["rv"]["k"] == "agg")
-        cur = P.body("emit_file::ActiveFileSet::<'a>::current_file_name")
-        ce = [c for c in cur.calls(normal_only=True) if c.callee.get("name") in ("first", "last")]
-        if len(ce) != 1:
-            return False, "current_file_name must read one end of the listing", [], cur.span
-        ret = P.body("emit_file::ActiveFileSet::<'a>::apply_retention")
-        rm = [c for c in ret.calls(normal_only=True) if c.callee.get("name") in ("pop", "remove") and "Vec" in (c.callee.get("full") or "")]
-        if len(rm) != 1:
-            return False, "retention must remove from one end of the listing", [], ret.span
-        newest_end = "first" if descending else "last"
-        oldest_op = "pop" if descending else "remove"
-        if ce[0].callee["name"] != newest_end:
-            return False, ("the listing is sorted %s but current_file_name() reads `%s()`: the file offered for reuse is the oldest, "
-                           "not the newest" % ("descending" if descending else "ascending", ce[0].callee["name"])), [], ce[0].loc
-        if rm[0].callee["name"] != oldest_op or (oldest_op == "remove" and mir.o_const_value(ret.origin(rm[0].args[1])) != 0):
-            return False, ("the listing is sorted %s (newest %s) but retention removes with `%s`: it deletes the newest files and "
-                           "keeps the oldest" % ("descending" if descending else "ascending", newest_end, rm[0].callee["name"])), [], rm[0].loc
-        return True, "", [s.loc, ce[0].loc, rm[0].loc]
-    chk.ob("C11.R4:order-agreement", "sort order, the end offered for reuse (newest) and the end retention deletes (oldest) agree", r4)
+    chk.ob("C11.R4:order-agreement", "sort order, the end offered for reuse (newest) and the end retention deletes (oldest) agree", lambda: order_agreement(P))
 
     def r5():
         fn = P.body("emit_file::file_name")
